@@ -29,9 +29,10 @@ import (
 )
 
 type c27Step struct {
-	Op string `json:"op"`          // burst | err | ok | fail | adv
+	Op string `json:"op"`          // burst | err | ok | fail | adv | mdown | mup (master marked down / up)
 	N  int    `json:"n,omitempty"` // ok: number of rounds
 	D  int64  `json:"d,omitempty"` // adv: seconds; ok/fail: seconds before each round
+	R  int    `json:"r,omitempty"` // replica of the group the step is about (burst, err, ok, fail)
 }
 
 type c27Case struct {
@@ -40,7 +41,8 @@ type c27Case struct {
 	Min       int64     `json:"min"`
 	Cool      int64     `json:"cooldown"`
 	DownAfter int       `json:"down_after"`
-	FailKind  string    `json:"fail_kind"` // getcheck | ping
+	FailKind  string    `json:"fail_kind"`          // getcheck | ping
+	Replicas  int       `json:"replicas,omitempty"` // replicas in the group (0 = 1); strategies come from the real InitFuseRecoveryPolicy
 	Steps     []c27Step `json:"steps"`
 }
 
@@ -51,6 +53,8 @@ type c27Fail struct {
 	Chain  int
 	Failed bool // a probe failed since the breaker took the node down
 	StepAt int
+	MDown  bool // the master was marked down in the failing round
+	Sib    bool // a sibling replica of the group was down at that moment
 }
 
 func c27Penalty(k int) int64 {
@@ -65,6 +69,23 @@ func c27Penalty(k int) int64 {
 type c27Obs struct {
 	Rounds, Errors, Fuses, Recoveries, BadRecoveries int
 	MaxChain                                         int
+}
+
+// per-replica reference state
+type c27Rep struct {
+	node          *NodeInfo
+	pool          *hcPool
+	ref           *hcRefWindow
+	probeOK       bool
+	takenDown     int64 // time the breaker took the node down (up->down)
+	latestTrigger int64 // latest time the reference says the breaker fired for this replica
+	fusedDown     bool
+	failedSince   bool
+	consecOK      int64 // consecutive successful rounds since taken down / last failed round
+	eligOK        int64 // those of them made while the master was up
+	chain         int
+	lastRecovery  int64
+	lastPass      int64
 }
 
 // c27Run executes one history. A refuted clause does not end the history: the failure is
@@ -85,153 +106,195 @@ func c27Run(c c27Case) ([]*c27Fail, c27Obs) {
 	const base = int64(1700000000)
 	clock := hcInstallClock(base)
 	mnode, _ := hcNode(0, 1, "dc", true, clock)
-	node, pool := hcNode(1, 1, "dc", true, clock)
 	s := &Slice{Namespace: "c27", FuseEnabled: "on", FuseWindowSize: c.W, FuseMinErrorCount: c.Min}
 	if c.Policy == "hard" {
 		s.FuseCooldownPeriod = c.Cool
 	}
 	s.Master = &DBInfo{Nodes: []*NodeInfo{mnode}}
-	s.Slave = &DBInfo{Nodes: []*NodeInfo{node}}
+	s.Slave = &DBInfo{}
+	nrep := c.Replicas
+	if nrep < 1 {
+		nrep = 1
+	}
+	reps := make([]*c27Rep, nrep)
+	for i := range reps {
+		node, pool := hcNode(1+i, 1, "dc", true, clock)
+		rp := &c27Rep{node: node, pool: pool, ref: &hcRefWindow{w: c.W, min: c.Min}, probeOK: true}
+		pool.checkFn = func(p *hcPool) (PooledConnect, error) {
+			if !rp.probeOK && c.FailKind == "getcheck" {
+				return nil, errors.New("get conn timeout")
+			}
+			cn := &hcConn{pool: p}
+			if !rp.probeOK {
+				cn.pingFn = func(*hcConn) error { return errors.New("ping: broken pipe") }
+			}
+			return cn, nil
+		}
+		connErr := mysql.NewConnTypeError(pool.addr, "failed to dial within timeout")
+		pool.getFn = func(p *hcPool) (PooledConnect, error) { return nil, connErr }
+		s.Slave.Nodes = append(s.Slave.Nodes, node)
+		reps[i] = rp
+	}
+	// the strategies of every replica come from the real InitFuseRecoveryPolicy
 	if err := hcEnableFuse(s, s.Slave); err != nil {
 		return []*c27Fail{{Sig: "setup", Clause: "setup", Detail: err.Error()}}, obs
 	}
 	created := clock.Sec()
 	clock.Advance(20) // first events happen more than two ping periods after the policy was created
-	pool.SetLastChecked()
-
-	probeOK := true
-	pool.checkFn = func(p *hcPool) (PooledConnect, error) {
-		if !probeOK && c.FailKind == "getcheck" {
-			return nil, errors.New("get conn timeout")
-		}
-		cn := &hcConn{pool: p}
-		if !probeOK {
-			cn.pingFn = func(*hcConn) error { return errors.New("ping: broken pipe") }
-		}
-		return cn, nil
+	for _, rp := range reps {
+		rp.pool.SetLastChecked()
+		rp.lastRecovery = created
+		rp.lastPass = clock.Sec()
 	}
-	connErr := mysql.NewConnTypeError(pool.addr, "failed to dial within timeout")
-	pool.getFn = func(p *hcPool) (PooledConnect, error) { return nil, connErr }
+	masterUp := true
+	siblingDown := func(me *c27Rep) bool {
+		for _, o := range reps {
+			if o != me && o.node.IsStatusDown() {
+				return true
+			}
+		}
+		return false
+	}
 
-	ref := &hcRefWindow{w: c.W, min: c.Min}
-	var (
-		takenDown     int64 // time the breaker took the node down (up->down)
-		latestTrigger int64 // latest time the reference says the breaker fired
-		fusedDown     bool
-		failedSince   bool
-		consecOK      int64
-		chain         int
-		lastRecovery  = created
-		lastPass      = clock.Sec()
-	)
-	up := func() bool { return node.IsStatusUp() }
-
-	oneError := func(si int) {
+	oneError := func(si int, rp *c27Rep) {
 		obs.Errors++
 		t := clock.Sec()
-		before := up()
-		s.getConnWithFuse(node)
-		after := up()
-		trig := ref.record(t)
+		before := rp.node.IsStatusUp()
+		s.getConnWithFuse(rp.node)
+		after := rp.node.IsStatusUp()
+		trig := rp.ref.record(t)
 		if trig {
-			latestTrigger = t
+			rp.latestTrigger = t
+		}
+		mk := func(cl, det string) *c27Fail {
+			return &c27Fail{Clause: cl, Detail: det, StepAt: si, MDown: !masterUp, Sib: siblingDown(rp)}
 		}
 		switch {
 		case !before && after:
-			addFail(&c27Fail{Clause: "up-through-error-event", Detail: fmt.Sprintf("t=%d", t), StepAt: si})
-			lastRecovery, fusedDown, failedSince = t, false, false
+			addFail(mk("up-through-error-event", fmt.Sprintf("t=%d", t)))
+			rp.lastRecovery, rp.fusedDown, rp.failedSince = t, false, false
 		case before && after && trig:
-			addFail(&c27Fail{Clause: "breaker-missed", Detail: fmt.Sprintf("t=%d reference count %d >= min %d but node still up", t, ref.count(t), c.Min), StepAt: si})
+			addFail(mk("breaker-missed", fmt.Sprintf("t=%d reference count %d >= min %d but node still up", t, rp.ref.count(t), c.Min)))
 		case before && !after && !trig:
-			addFail(&c27Fail{Clause: "breaker-early", Detail: fmt.Sprintf("t=%d reference count %d < min %d but node marked down", t, ref.count(t), c.Min), StepAt: si})
+			addFail(mk("breaker-early", fmt.Sprintf("t=%d reference count %d < min %d but node marked down", t, rp.ref.count(t), c.Min)))
 		}
 		if before && !after {
 			obs.Fuses++
-			takenDown, fusedDown, failedSince, consecOK = t, true, false, 0
-			if t-lastRecovery <= 2*PingPeriod {
-				chain++
+			rp.takenDown, rp.fusedDown, rp.failedSince, rp.consecOK, rp.eligOK = t, true, false, 0, 0
+			if t-rp.lastRecovery <= 2*PingPeriod {
+				rp.chain++
 				obs.BadRecoveries++
-				if chain > obs.MaxChain {
-					obs.MaxChain = chain
+				if rp.chain > obs.MaxChain {
+					obs.MaxChain = rp.chain
 				}
 			} else {
-				chain = 0
+				rp.chain = 0
 			}
 		}
 	}
-	oneRound := func(si int, ok bool) {
+	oneRound := func(si int, rp *c27Rep, ok bool) {
 		obs.Rounds++
 		t := clock.Sec()
-		probeOK = ok
-		before := up()
-		if err := s.TryRecover(node, c.DownAfter, 0); err != nil {
+		rp.probeOK = ok
+		before := rp.node.IsStatusUp()
+		if err := s.TryRecover(rp.node, c.DownAfter, 0); err != nil {
 			addFail(&c27Fail{Clause: "tryrecover-error", Detail: err.Error(), StepAt: si})
 			return
 		}
-		after := up()
+		after := rp.node.IsStatusUp()
 		if ok {
-			consecOK++
-			lastPass = t
+			rp.consecOK++
+			if masterUp {
+				rp.eligOK++
+			}
+			rp.lastPass = t
 		} else {
-			consecOK = 0
+			rp.consecOK, rp.eligOK = 0, 0
 			if !before {
-				failedSince = true
+				rp.failedSince = true
 			}
 		}
 		fail := func(cl, det string) {
-			addFail(&c27Fail{Clause: cl, Detail: det, Chain: chain, Failed: failedSince, StepAt: si})
+			addFail(&c27Fail{Clause: cl, Detail: det, Chain: rp.chain, Failed: rp.failedSince, StepAt: si, MDown: !masterUp, Sib: siblingDown(rp)})
 		}
 		switch {
 		case !before && after: // recovery
 			switch {
 			case !ok:
 				fail("up-without-successful-probe", fmt.Sprintf("t=%d", t))
-			case fusedDown && c.Policy == "hard" && t < takenDown+c.Cool:
-				fail("hard/up-before-cooldown", fmt.Sprintf("fused at %d, cool-down %d, marked up at %d", takenDown, c.Cool, t))
-			case fusedDown && c.Policy == "hard" && t < latestTrigger+c.Cool:
+			case rp.fusedDown && c.Policy == "hard" && t < rp.takenDown+c.Cool:
+				fail("hard/up-before-cooldown", fmt.Sprintf("fused at %d, cool-down %d, marked up at %d", rp.takenDown, c.Cool, t))
+			case rp.fusedDown && c.Policy == "hard" && t < rp.latestTrigger+c.Cool:
 				// "the configured cool-down since its LATEST fuse": the breaker fired again while the node was down
-				fail("hard/up-before-cooldown-of-latest-fuse", fmt.Sprintf("breaker took the node down at %d and fired again at %d while it was down, cool-down %d, marked up at %d", takenDown, latestTrigger, c.Cool, t))
-			case fusedDown && c.Policy == "gradual" && (consecOK < c27Penalty(chain) || consecOK < 1):
-				fail("gradual/up-before-penalty", fmt.Sprintf("marked up at t=%d after %d consecutive successful round(s); penalty in force %d (consecutive bad recoveries: %d; fused at %d, previous recovery at %d)", t, consecOK, c27Penalty(chain), chain, takenDown, lastRecovery))
+				fail("hard/up-before-cooldown-of-latest-fuse", fmt.Sprintf("breaker took the node down at %d and fired again at %d while it was down, cool-down %d, marked up at %d", rp.takenDown, rp.latestTrigger, c.Cool, t))
+			case rp.fusedDown && c.Policy == "gradual" && (rp.consecOK < c27Penalty(rp.chain) || rp.consecOK < 1):
+				fail("gradual/up-before-penalty", fmt.Sprintf("marked up at t=%d after %d consecutive successful round(s) of its own; penalty in force %d (consecutive bad recoveries: %d; fused at %d, previous recovery at %d)", t, rp.consecOK, c27Penalty(rp.chain), rp.chain, rp.takenDown, rp.lastRecovery))
 			}
 			obs.Recoveries++
-			lastRecovery, fusedDown, failedSince = t, false, false
+			rp.lastRecovery, rp.fusedDown, rp.failedSince = t, false, false
 		case before && !after: // marked down by the probe round
-			if t-lastPass < int64(c.DownAfter) {
-				fail("round-marked-down-without-cause", fmt.Sprintf("t=%d last passed probe at %d, down-after %d", t, lastPass, c.DownAfter))
+			if t-rp.lastPass < int64(c.DownAfter) {
+				fail("round-marked-down-without-cause", fmt.Sprintf("t=%d last passed probe at %d, down-after %d", t, rp.lastPass, c.DownAfter))
 			}
-			fusedDown, failedSince, consecOK = false, false, 0
-		case !before && !after && ok:
-			if c.Policy == "hard" && t >= latestTrigger+c.Cool {
-				fail("hard/not-up-after-cooldown", fmt.Sprintf("breaker last fired at %d, cool-down %d, successful round at %d left the node down", latestTrigger, c.Cool, t))
+			rp.fusedDown, rp.failedSince, rp.consecOK, rp.eligOK = false, false, 0, 0
+		case !before && !after && ok && masterUp:
+			// bounded progress is demanded with the master up only (C28: with the master down an
+			// up-mark is permitted, not demanded)
+			if c.Policy == "hard" && t >= rp.latestTrigger+c.Cool {
+				fail("hard/not-up-after-cooldown", fmt.Sprintf("breaker last fired for this replica at %d, cool-down %d, successful round at %d left the node down", rp.latestTrigger, c.Cool, t))
 			}
-			if c.Policy == "gradual" && consecOK >= c27Penalty(chain)+1 {
-				fail("gradual/not-up-after-penalty", fmt.Sprintf("%d consecutive successful rounds, penalty in force %d (chain %d), node still down at t=%d", consecOK, c27Penalty(chain), chain, t))
+			if c.Policy == "gradual" && rp.eligOK >= c27Penalty(rp.chain)+1 {
+				fail("gradual/not-up-after-penalty", fmt.Sprintf("%d consecutive successful rounds with the master up, penalty in force %d (chain %d), node still down at t=%d", rp.eligOK, c27Penalty(rp.chain), rp.chain, t))
 			}
 		}
 	}
 
 	for si, st := range c.Steps {
+		rp := reps[0]
+		if st.R > 0 && st.R < len(reps) {
+			rp = reps[st.R]
+		}
 		switch st.Op {
 		case "adv":
 			clock.Advance(st.D)
+		case "mdown":
+			mnode.SetStatusDown()
+			masterUp = false
+		case "mup":
+			mnode.SetStatusUp()
+			masterUp = true
 		case "err":
-			oneError(si)
+			oneError(si, rp)
 		case "burst":
 			for i := int64(0); i < c.Min; i++ {
-				oneError(si)
+				oneError(si, rp)
 			}
 		case "ok":
 			for i := 0; i < st.N; i++ {
 				clock.Advance(st.D)
-				oneRound(si, true)
+				oneRound(si, rp, true)
 			}
 		case "fail":
 			clock.Advance(st.D)
-			oneRound(si, false)
+			oneRound(si, rp, false)
 		}
 	}
 	return fails, obs
+}
+
+// c27BaseSig strips the context suffixes (master down, sibling down) of a signature.
+func c27BaseSig(sig string) string {
+	sig = strings.TrimSuffix(sig, "/sibling-down")
+	return strings.TrimSuffix(sig, "/master-down")
+}
+
+func c27HasBase(fs []*c27Fail, base string) *c27Fail {
+	for _, f := range fs {
+		if c27BaseSig(f.Sig) == base {
+			return f
+		}
+	}
+	return nil
 }
 
 func c27Has(fs []*c27Fail, sig string) *c27Fail {
@@ -245,7 +308,7 @@ func c27Has(fs []*c27Fail, sig string) *c27Fail {
 
 // c27Shrink removes steps greedily while the history still refutes the clause with signature sig.
 func c27Shrink(c c27Case, sig string) c27Case {
-	fails := func(x c27Case) bool { f, _ := c27Run(x); return c27Has(f, sig) != nil }
+	fails := func(x c27Case) bool { f, _ := c27Run(x); return c27HasBase(f, c27BaseSig(sig)) != nil }
 	for changed := true; changed; {
 		changed = false
 		for i := 0; i < len(c.Steps); i++ {
@@ -274,27 +337,34 @@ func c27Sig(c c27Case, f *c27Fail) string {
 	if f.Chain > 0 {
 		chain = ">0"
 	}
+	sig := c.Policy + ":" + f.Clause
 	switch f.Clause {
 	case "gradual/up-before-penalty", "gradual/not-up-after-penalty":
-		return fmt.Sprintf("%s/chain%s/failedProbeSinceFuse=%v", f.Clause, chain, f.Failed)
+		sig = fmt.Sprintf("%s/chain%s/failedProbeSinceFuse=%v", f.Clause, chain, f.Failed)
 	}
-	return c.Policy + ":" + f.Clause
+	if f.MDown {
+		sig += "/master-down"
+	}
+	if f.Sib {
+		sig += "/sibling-down"
+	}
+	return sig
 }
 
 func c27Key(c c27Case, o c27Obs) string {
 	var sb strings.Builder
-	fmt.Fprintf(&sb, "%s/W%d/m%d/c%d/d%d/%s:", c.Policy, c.W, c.Min, c.Cool, c.DownAfter, c.FailKind)
+	fmt.Fprintf(&sb, "%s/W%d/m%d/c%d/d%d/%s/r%d:", c.Policy, c.W, c.Min, c.Cool, c.DownAfter, c.FailKind, c.Replicas)
 	for _, s := range c.Steps {
-		fmt.Fprintf(&sb, "%s%d.%d,", s.Op[:1], s.N, s.D)
+		fmt.Fprintf(&sb, "%s%d.%d.%d,", s.Op[:2], s.N, s.D, s.R)
 	}
 	return sb.String()
 }
 
 func TestVerif_C27(t *testing.T) {
 	hcSilenceLog()
-	rec := kit.Start("C27", "exploration", "histories over {burst of min connection errors, single connection error, n successful probe rounds, failed probe round, clock advance in {0,1,cool-1,cool,2*ping,2*ping+1}} for the hard and the gradual policy, exhaustive up to the tier's length and random up to 30 steps; non-trivial = distinct histories in which the breaker took the node down and a later round restored it")
+	rec := kit.Start("C27", "exploration", "histories over {burst of min connection errors, single connection error, n successful probe rounds, failed probe round, clock advance in {0,1,cool-1,cool,2*ping,2*ping+1}} for the hard and the gradual policy, exhaustive up to the tier's length (one replica, master marked down/up as two more letters) and random up to 30 steps over 1-3 replicas of one group whose strategies come from the real InitFuseRecoveryPolicy; non-trivial = distinct histories in which the breaker took the node down and a later round restored it")
 	defer rec.Finish(t)
-	rec.Assume("the master is up and the replication-lag check is off (seconds_behind_master=0) in every history: C28 covers those")
+	rec.Assume("the replication-lag check is off (seconds_behind_master=0) in every history: C28 covers it; the master is marked down/up by history steps, and bounded progress is demanded only in rounds with the master up")
 	rec.Assume("the first error arrives more than two ping periods after the recovery policy object was created")
 	rec.Assume("'consecutive successful probes' are counted in probe rounds (one TryRecover call per round), reset by a failed round and by the breaker taking the node down")
 	defer VerifSetClock(nil)
@@ -322,11 +392,11 @@ func TestVerif_C27(t *testing.T) {
 			if !rec.IsKnown(ff.Sig) {
 				m = c27Shrink(c, ff.Sig)
 				fs, _ := c27Run(m)
-				if mf = c27Has(fs, ff.Sig); mf == nil {
+				if mf = c27HasBase(fs, c27BaseSig(ff.Sig)); mf == nil {
 					m, mf = c, ff
 				}
 			}
-			rec.Violation(mf.Sig, fmt.Sprintf("%s policy W=%d min=%d cool=%d downAfter=%d steps=%+v: %s: %s", m.Policy, m.W, m.Min, m.Cool, m.DownAfter, m.Steps, mf.Clause, mf.Detail), m)
+			rec.Violation(mf.Sig, fmt.Sprintf("%s policy W=%d min=%d cool=%d downAfter=%d replicas=%d steps=%+v: %s: %s", m.Policy, m.W, m.Min, m.Cool, m.DownAfter, m.Replicas, m.Steps, mf.Clause, mf.Detail), m)
 		}
 	}
 
@@ -340,7 +410,7 @@ func TestVerif_C27(t *testing.T) {
 	}
 
 	alphabet := func(cool int64) []c27Step {
-		a := []c27Step{{Op: "burst"}, {Op: "err"}, {Op: "ok", N: 1, D: 4}, {Op: "ok", N: 6, D: 4}, {Op: "ok", N: 7, D: 1}, {Op: "fail", D: 4}}
+		a := []c27Step{{Op: "burst"}, {Op: "err"}, {Op: "ok", N: 1, D: 4}, {Op: "ok", N: 6, D: 4}, {Op: "ok", N: 7, D: 1}, {Op: "fail", D: 4}, {Op: "mdown"}, {Op: "mup"}}
 		seen := map[int64]bool{}
 		for _, d := range []int64{0, 1, cool - 1, cool, 2 * PingPeriod, 2*PingPeriod + 1} {
 			if d >= 0 && !seen[d] {
@@ -374,7 +444,7 @@ func TestVerif_C27(t *testing.T) {
 		}
 		walk(0)
 	}
-	rec.Set("exhaustive_space", fmt.Sprintf("all histories of %d steps over the 12-letter alphabet (W=4,min=2,cool=3), both policies: %d histories (shorter ones are prefixes)", maxLen, nEx))
+	rec.Set("exhaustive_space", fmt.Sprintf("all histories of %d steps over the 14-letter alphabet (W=4,min=2,cool=3), both policies: %d histories (shorter ones are prefixes)", maxLen, nEx))
 
 	// (1b) directed: the breaker fires again k seconds after the fuse while the node is still
 	// down; successful rounds every second from then on (hard: cool-down counts from the latest
@@ -395,6 +465,35 @@ func TestVerif_C27(t *testing.T) {
 		}
 	}
 
+	// (1c) directed: two replicas of one group (strategies from the real InitFuseRecoveryPolicy)
+	// fused with overlapping down periods; each replica is judged by its own history.
+	for _, wm := range [][2]int64{{4, 2}, {8, 3}, {1, 1}} {
+		for _, cool := range []int64{3, 8, 60} {
+			for _, k := range []int64{1, cool - 1} {
+				if k < 1 {
+					continue
+				}
+				// hard: A fused at t0, B at t0+k; A's cool-down runs from A's own latest fuse
+				runOne(c27Case{Policy: "hard", W: wm[0], Min: wm[1], Cool: cool, DownAfter: 1 << 30, FailKind: "ping", Replicas: 2, Steps: []c27Step{
+					{Op: "burst", R: 0}, {Op: "adv", D: k}, {Op: "burst", R: 1}, {Op: "adv", D: cool - k}, {Op: "ok", N: 1, D: 0, R: 0}, {Op: "ok", N: int(k) + 1, D: 1, R: 1}}})
+				// and with the master down in between (permitted up-mark must still respect the cool-down)
+				runOne(c27Case{Policy: "hard", W: wm[0], Min: wm[1], Cool: cool, DownAfter: 1 << 30, FailKind: "ping", Replicas: 2, Steps: []c27Step{
+					{Op: "burst", R: 0}, {Op: "mdown"}, {Op: "ok", N: 1, D: 0, R: 0}, {Op: "adv", D: k}, {Op: "ok", N: 1, D: 0, R: 0}, {Op: "mup"}, {Op: "adv", D: cool}, {Op: "ok", N: 1, D: 0, R: 0}}})
+			}
+		}
+		// gradual: both fused, successful probes alternate between the siblings
+		alt := []c27Step{{Op: "burst", R: 0}, {Op: "adv", D: 1}, {Op: "burst", R: 1}}
+		for i := 0; i < 9; i++ {
+			alt = append(alt, c27Step{Op: "ok", N: 1, D: 2, R: 0}, c27Step{Op: "ok", N: 1, D: 2, R: 1})
+		}
+		runOne(c27Case{Policy: "gradual", W: wm[0], Min: wm[1], DownAfter: 1 << 30, FailKind: "ping", Replicas: 2, Steps: alt})
+		alt2 := []c27Step{{Op: "burst", R: 0}, {Op: "burst", R: 1}, {Op: "fail", D: 4, R: 1}}
+		for i := 0; i < 9; i++ {
+			alt2 = append(alt2, c27Step{Op: "ok", N: 1, D: 2, R: 1}, c27Step{Op: "ok", N: 1, D: 2, R: 0})
+		}
+		runOne(c27Case{Policy: "gradual", W: wm[0], Min: wm[1], DownAfter: 1 << 30, FailKind: "getcheck", Replicas: 3, Steps: alt2})
+	}
+
 	// (2) random histories up to 30 steps
 	r := kit.SubRand(kit.Seed(), "C27/random")
 	for i, n := 0, kit.N(12000, 300000); i < n; i++ {
@@ -407,8 +506,13 @@ func TestVerif_C27(t *testing.T) {
 		}
 		al := alphabet(c.Cool)
 		okN := []int{1, 1, 2, 5, 6, 7, 10, 11, 15, 16, 17}
+		c.Replicas = []int{1, 1, 2, 2, 3}[r.Intn(5)]
 		for j, l := 0, r.Range(3, 30); j < l; j++ {
 			s := al[r.Intn(len(al))]
+			if (s.Op == "mdown" || s.Op == "mup") && r.Chance(1, 2) {
+				s = c27Step{Op: "ok", N: 1, D: 4} // keep master marks rarer than probe rounds
+			}
+			s.R = r.Intn(c.Replicas)
 			if s.Op == "ok" {
 				s.N = okN[r.Intn(len(okN))]
 				s.D = []int64{0, 1, 4, 4, 4}[r.Intn(5)]
